@@ -8,12 +8,20 @@ package main
 
 import (
 	"bytes"
+	"context"
+	"errors"
 	"fmt"
 	"net"
 	"os"
 	"strings"
+	"syscall"
 	"testing"
 	"time"
+
+	"github.com/refraction-networking/conjure/pkg/core"
+	"github.com/refraction-networking/conjure/pkg/transports"
+	"google.golang.org/protobuf/proto"
+	"google.golang.org/protobuf/types/known/anypb"
 
 	cj "github.com/refraction-networking/conjure/pkg/station/lib"
 	"github.com/refraction-networking/conjure/pkg/station/log"
@@ -56,7 +64,7 @@ func c17Shapes(op string) int {
 }
 
 // outcome classes of a connection
-var c17Outcomes = []string{"no-registration", "no-transport", "found-min", "found-prefix", "found-obfs4", "transport-error"}
+var c17Outcomes = []string{"no-registration", "no-transport", "found-min", "found-prefix", "found-obfs4", "transport-error", "connecting-fail", "connecting-ok"}
 
 // address families of the client
 var c17Families = []string{"v4", "v6", "v4mapped"}
@@ -65,10 +73,15 @@ var c17Enum = func() [][]int {
 	var out [][]int
 	for oc := range c17Outcomes {
 		for fam := range c17Families {
-			out = append(out, []int{1, oc, fam, 0, 0, 0}) // fault-free
-			for si, s := range c17Sites {
-				for sh := 0; sh < c17Shapes(s.op); sh++ {
-					out = append(out, []int{1, oc, fam, 1, si, sh})
+			for ph := 0; ph < 2; ph++ {
+				if ph == 1 && !strings.HasPrefix(c17Outcomes[oc], "found-") && c17Outcomes[oc] != "connecting-ok" {
+					continue // the PROXY header is only written by a relay
+				}
+				out = append(out, []int{1, oc, fam, ph, 0, 0, 0}) // fault-free
+				for si, s := range c17Sites {
+					for sh := 0; sh < c17Shapes(s.op); sh++ {
+						out = append(out, []int{1, oc, fam, ph, 1, si, sh})
+					}
 				}
 			}
 		}
@@ -85,7 +98,7 @@ func TestVerifC17(t *testing.T) {
 		Runs:     map[string]int{"quick": 10000, "thorough": 600000},
 		Real:     []string{"cmd/application handleNewTCPConn incl. both generalizeErr call paths and every log statement", "pkg/station/lib Proxy / halfPipe / tunnelStats summaries / generalizeErr", "transports (obfs4 server handshake I/O on the client connection)", "ingest pipeline log lines (registration path)", "pkg/station/log level filtering at the default level"},
 		Stub:     []string{"TCP connections with fault plans (simnet; errors shaped like the net package's, whose text embeds both endpoints)", "covert echo host, liveness table, detector recorder", "stdout/stderr/std logger are redirected to a capture file in TestMain before any logger exists"},
-		Rule: "enumerated: outcome class {no registration, no transport, found via min / prefix / obfs4, transport error} x client family {IPv4, IPv6, v4-mapped} x fault site (17 operation sites on the client connection, the dial and the covert connection) x every error shape of that operation kind (read 13, write 12, close 4, deadline 3, dial 8), plus the fault-free runs: all single faults; random: pairs of faults, registration-path events (forbidden covert, live phantom, duplicates, sweep). " +
+		Rule: "enumerated: outcome class {no registration, no transport, found via min / prefix / obfs4, transport error, connecting transport whose Connect fails with one of 7 DTLS-shaped errors, connecting transport relayed} x client family {IPv4, IPv6, v4-mapped} x PROXY-header flag of the registration (relayed outcomes) x fault site (17 operation sites on the client connection, the dial and the covert connection) x every error shape of that operation kind (read 13, write 12, close 4, deadline 3, dial 8), plus the fault-free runs: all single faults; random: pairs of faults, registration-path events (forbidden covert, live phantom, duplicates, sweep). " +
 			"non-trivial = the planned fault fired (or fault-free found/relay run); distinct = (outcome, family, fault plan, schedule)",
 		Assume: []string{"LOG_CLIENT_IP unset, default log level", "searched forms: dotted IPv4, RFC 5952 and fully expanded IPv6, with or without brackets/port"},
 	})
@@ -119,6 +132,7 @@ func c17Scenario(r *sim.Run) {
 	enumMode := tp.Choose("mode", 2) == 1
 	outcome := tp.Choose("outcome", len(c17Outcomes))
 	fam := tp.Choose("family", len(c17Families))
+	proxyHeader := tp.Choose("proxy-header", 2) == 1
 	type fplan struct {
 		site  c17Site
 		shape int
@@ -131,6 +145,17 @@ func c17Scenario(r *sim.Run) {
 	for i := 0; i < nf; i++ {
 		si := tp.Choose("site", len(c17Sites))
 		sh := tp.Choose("shape", c17Shapes(c17Sites[si].op))
+		if c17Outcomes[outcome] == "found-obfs4" && c17Sites[si] == (c17Site{"client", "deadline", 2}) {
+			// Not injected: the third SetDeadline on an obfs4 client connection is the obfs4 library's
+			// own "clear the handshake deadline" call. obfs4 v0.1.2 (a dependency, outside this
+			// repository) answers a failure there with `return nil` BEFORE it has set up its frame
+			// encoder/decoder, so the station is handed a connection whose first Write dereferences nil
+			// and takes the process down. A SetDeadline on an open socket does not fail in practice
+			// (only "use of closed network connection"), and no property here is about it; DESIGN.md
+			// section 10 records the observation.
+			r.Probe("skipped_obfs4_deadline_clear_fault")
+			continue
+		}
 		plans = append(plans, fplan{c17Sites[si], sh})
 	}
 	regEvents := 0
@@ -156,12 +181,12 @@ func c17Scenario(r *sim.Run) {
 	cliAddr := &net.TCPAddr{IP: cliIP, Port: 50123}
 	v6 := c17Families[fam] == "v6"
 
-	desc := fmt.Sprintf("outcome=%s family=%s", c17Outcomes[outcome], c17Families[fam])
+	desc := fmt.Sprintf("outcome=%s family=%s proxy-header=%v", c17Outcomes[outcome], c17Families[fam], proxyHeader)
 	for _, p := range plans {
 		desc += fmt.Sprintf(" fault[%s %s#%d shape %d]", p.site.end, p.site.op, p.site.idx, p.shape)
 		r.Cover(p.site.end, p.site.op, fmt.Sprint(p.site.idx, p.shape))
 	}
-	r.Cover(c17Outcomes[outcome], c17Families[fam])
+	r.Cover(c17Outcomes[outcome], c17Families[fam], fmt.Sprint(proxyHeader))
 	r.Logf("C17 %s", desc)
 
 	applyClient := func(S *simnet.Conn) {
@@ -189,9 +214,15 @@ func c17Scenario(r *sim.Run) {
 			if v6 {
 				x.v4 = false
 			}
+			if proxyHeader {
+				// the registration asks for a PROXY protocol header (it names the client's address) in
+				// front of the relayed stream
+				x.flags = &pb.RegistrationFlags{ProxyHeader: proto.Bool(true)}
+			}
 			return x
 		}
 		var send func(h *simnet.Conn)
+		var connecting *c17Connecting
 		phantom := net.ParseIP("192.0.2.4").To4()
 		if v6 {
 			phantom = net.ParseIP("2001:db8:1::4")
@@ -242,6 +273,27 @@ func c17Scenario(r *sim.Run) {
 				wc.Write([]byte("application data 1"))
 				stReadN(wc, 18, 20*time.Second)
 			}
+		case "connecting-fail", "connecting-ok":
+			// a registration for a transport with which the STATION connects to the client (as the
+			// DTLS transport does): ingest calls Connect and relays over the returned connection
+			ct := &c17Connecting{w: w, cli: cliAddr, v6: v6, ok: c17Outcomes[outcome] == "connecting-ok", apply: applyClient}
+			if !ct.ok {
+				ct.shape = tp.Choose("connect-error", len(c17ConnectErrors))
+				desc += " connect-error=" + c17ConnectErrors[ct.shape].name
+				r.Cover("connect-error", c17ConnectErrors[ct.shape].name)
+			}
+			w.rm.AddTransport(pb.TransportType_DTLS, ct)
+			if c = mk(0, pb.TransportType_Min, nil); c == nil {
+				return
+			}
+			c.tt = pb.TransportType_DTLS
+			c.pparams = nil
+			if c.flags == nil {
+				c.flags = &pb.RegistrationFlags{}
+			}
+			// the liveness probe of the phantom is not what this outcome is about
+			c.flags.Prescanned = proto.Bool(true)
+			connecting = ct
 		default: // transport error: a prefix flight with another prefix id than the registered one
 			if c = mk(0, pb.TransportType_Prefix, &prefix.ClientParams{PrefixID: 1}); c == nil {
 				return
@@ -304,7 +356,32 @@ func c17Scenario(r *sim.Run) {
 				}
 			}
 		}
+		if connecting != nil {
+			// the registration itself triggers the station's connection attempt
+			w.register(c.regMessage(nil))
+			w.settle()
+			if H := connecting.H; H != nil {
+				H.Write([]byte("application data 1"))
+				stReadN(H, 18, 20*time.Second)
+				H.Write([]byte("application data 2"))
+				stReadN(H, 18, 20*time.Second)
+				w.settle()
+				H.Close()
+			}
+			for i := 0; i < 300 && connecting.calls > 0 && !connecting.done(); i++ {
+				w.settle()
+				time.Sleep(time.Second)
+			}
+			if connecting.calls == 0 {
+				r.Fail("harness/c17-connecting", "the station never called Connect for the connecting-transport registration")
+				return
+			}
+			r.Probe("connecting_" + map[bool]string{true: "relayed", false: "failed"}[connecting.ok])
+		}
 		conn := w.openWith(phantom, cliAddr, applyClient)
+		if send == nil {
+			send = func(h *simnet.Conn) { stWriteSegments(h, junk[:300], []int{100}, nil) }
+		}
 		send(conn.H)
 		for i := 0; i < 14 && !conn.returned; i++ {
 			w.settle()
@@ -382,6 +459,81 @@ func c17Scenario(r *sim.Run) {
 	}
 }
 
+// c17Connecting stands in for a connecting transport (the DTLS transport dials the client over UDP
+// and runs a handshake; here Connect either fails with an error shaped like the ones that transport
+// returns, or hands the station one end of a simulated connection to the client).
+type c17Connecting struct {
+	w     *stWorld
+	cli   *net.TCPAddr
+	v6    bool
+	ok    bool
+	shape int
+	apply func(S *simnet.Conn)
+	calls int
+	H, S  *simnet.Conn
+}
+
+var c17ConnectErrors = []struct {
+	name string
+	mk   func(local, remote net.Addr) error
+}{
+	{"dial-unreachable-flattened", func(l, r net.Addr) error {
+		return fmt.Errorf("error connecting to dtls client: %v", &net.OpError{Op: "dial", Net: "udp", Source: l, Addr: r, Err: os.NewSyscallError("connect", syscall.ENETUNREACH)})
+	}},
+	{"dial-unreachable-wrapped", func(l, r net.Addr) error {
+		return fmt.Errorf("error connecting to dtls client: %w", &net.OpError{Op: "dial", Net: "udp", Source: l, Addr: r, Err: os.NewSyscallError("connect", syscall.ENETUNREACH)})
+	}},
+	{"read-refused-bare", func(l, r net.Addr) error {
+		return &net.OpError{Op: "read", Net: "udp", Source: l, Addr: r, Err: os.NewSyscallError("read", syscall.ECONNREFUSED)}
+	}},
+	{"both-attempts-combined", func(l, r net.Addr) error {
+		e1 := fmt.Errorf("error connecting to dtls client: %v", &net.OpError{Op: "read", Net: "udp", Source: l, Addr: r, Err: os.NewSyscallError("read", syscall.ECONNREFUSED)})
+		e2 := fmt.Errorf("error accepting dtls connection from secret: %v", errors.New("seed already registered"))
+		return fmt.Errorf("%v, %v", e1, e2)
+	}},
+	{"deadline", func(l, r net.Addr) error { return context.DeadlineExceeded }},
+	{"deadline-wrapped", func(l, r net.Addr) error { return fmt.Errorf("error accepting: %w", context.DeadlineExceeded) }},
+	{"no-addresses", func(l, r net.Addr) error { return errors.New("seed already registered") }},
+}
+
+func (*c17Connecting) Name() string      { return "VerifConnecting" }
+func (*c17Connecting) LogPrefix() string { return "VCONN" }
+func (*c17Connecting) GetIdentifier(d transports.Registration) string {
+	return string(core.ConjureHMAC(d.SharedSecret(), "VerifConnectingHMACString"))
+}
+func (*c17Connecting) GetProto() pb.IPProto { return pb.IPProto_Udp }
+func (*c17Connecting) GetDstPort(uint, []byte, any) (uint16, error) {
+	return 443, nil
+}
+func (*c17Connecting) ParseParams(uint, *anypb.Any) (any, error) { return nil, nil }
+func (*c17Connecting) ParamStrings(any) []string                 { return nil }
+
+// done: the relay closes the connection it was given when it is finished
+func (t *c17Connecting) done() bool { return t.S == nil || t.S.IsClosed() }
+
+func (t *c17Connecting) Connect(ctx context.Context, reg transports.Registration) (net.Conn, error) {
+	hook.Yield("connect")
+	t.calls++
+	local := &net.UDPAddr{IP: *reg.PhantomIP(), Port: int(reg.GetDstPort())}
+	remote := &net.UDPAddr{IP: t.cli.IP, Port: t.cli.Port}
+	if !t.ok {
+		err := c17ConnectErrors[t.shape].mk(local, remote)
+		t.w.r.Fault("connect-error/" + c17ConnectErrors[t.shape].name)
+		t.w.r.Logf("Connect(%s) fails: (error text withheld from the log on purpose)", c17ConnectErrors[t.shape].name)
+		return nil, err
+	}
+	if t.calls > 1 {
+		return nil, errors.New("seed already registered")
+	}
+	H, S := simnet.Pipe(t.w.r, "connecting.client", "connecting.station", remote, local)
+	H.Sched, S.Sched = true, true
+	if t.apply != nil {
+		t.apply(S)
+	}
+	t.H, t.S = H, S
+	return S, nil
+}
+
 func c17Shape(op string, i int) simnet.Shape {
 	switch op {
 	case "read":
@@ -418,4 +570,3 @@ func c17Where(line string) string {
 	}
 	return "other"
 }
-
